@@ -86,6 +86,21 @@ def check_text(eid, nm):
 COMMENTS = {"l1": "'note one'", "l2": "'it, has (punctuation); inside'"}
 
 
+# growth path: further column options: id -> (group, ddl, reported key, reported value)
+EXTRAS = {
+    "x_collate": ("collate", "COLLATE utf8_bin", "collate", "utf8_bin"),
+    "x_autoinc": ("autoinc", "AUTO_INCREMENT", "autoincrement", True),
+    "x_encode": ("encode", "ENCODE zstd", "encode", "zstd"),
+    "x_generated": ("generated", "GENERATED ALWAYS AS (a * 2) STORED", "generated", {"always": True, "as": "a * 2", "stored": True}),
+    "x_onupdate": ("onupdate", "ON UPDATE CURRENT_TIMESTAMP", "on_update", "CURRENT_TIMESTAMP"),
+    "x_tz": ("timezone", "WITH TIME ZONE", "with_time_zone", True),
+    "x_encrypt": ("encrypt", "ENCRYPT", "encrypt", {"salt": True, "encryption_algorithm": "'AES192'", "integrity_algorithm": "SHA-1"}),
+    "x_tag": ("tag", "WITH TAG (t1='v')", "with_tag", "t1='v'"),
+    "x_identity": ("identity", "IDENTITY(1,1)", "identity", [1, 1]),
+    "x_charset": ("charset", "CHARACTER SET utf8", "character_set", "utf8"),
+}
+
+
 def ref_clause(rid, ncols, rnd=None):
     sch, tb, od, ou = REFS[rid]
     s = "REFERENCES " + (sch + "." if sch else "") + tb + " (" + ", ".join(REFCOLS[:ncols]) + ")"
@@ -116,6 +131,8 @@ def opt_text(o, rnd, nm=None):
         return "CHECK (" + check_text(v, nm) + ")"
     if g == "comment":
         return "COMMENT " + COMMENTS[v]
+    if v in EXTRAS:
+        return EXTRAS[v][1]
     raise ValueError(g)
 
 
